@@ -168,29 +168,49 @@ def loop_shard(lcs):
 
 
 # ------------------------------------------------------------------ finding classes
-SVC_FAMILY = {"svc_nodes", "svc_tag_nodes", "csn", "csn_tag", "connect_nodes", "csn_connect", "svc_checks"}
+# A failure is attributed to a recorded defect only when ALL of these agree with it: the kind of
+# query (its index rule), the NAME queried (it must be the name the anomaly of this write is about:
+# the old name of a renamed id, the service a check leaves, the current name of a service whose check
+# carries a stale name, a Connect destination that loses / gains / keeps an instance the write
+# touches), and what was lost.  Everything else is class "other" and is reported as a VIOLATION.
+NAME_INDEX = {"svc_nodes", "svc_tag_nodes", "csn", "csn_tag"}     # index rule reads service.<name>
+HEALTH = {"csn", "csn_tag"}                                       # result contains the check rows
+INDEX_LOSS = {"missed-index", "index-decreased", "missed-highwater"}
 
 
-def signature(q, v, op):
-    """structured signature of one oracle failure: query kind + what the contract lost + the situation"""
-    sit = v["sit"]
-    qk = q["k"]
-    cls = "other"
-    lost_index = v["kind"] in ("missed-index", "index-decreased")
-    if qk in ("kv_list", "kv_keys") and op["kind"] == "kv_deltree" and lost_index \
+def signature(q, v, op, si, stream):
+    """structured signature of one oracle failure"""
+    qk = q["k"][3:] if q["k"].startswith("ep:") else q["k"]
+    # names are compared case-folded: the memdb service index and the index table both lower-case
+    name, lost = q.get("a", "").lower(), v["kind"]
+    idx_lost = lost in INDEX_LOSS
+    # a blocked call that never comes back is the same loss seen through the loop (endpoint tier);
+    # in the store tiers only the optimised CheckServiceNodes watch can stay silent
+    wake_ok = lost == "missed-wake" and (stream == "ep" or qk == "csn")
+    fam = {"connect_nodes": "connect-nodes", "csn_connect": "csn-connect"}.get(qk, "name-index" if qk in NAME_INDEX else qk)
+    cls, rel = "other", ""
+    stale_cur = {x["current"].lower() for x in si.get("stale") or []}
+    stale_dest = {x["dest"].lower() for x in si.get("stale") or [] if x["dest"]}
+    moved = {x.lower() for x in si.get("moved_from") or [] if x}
+    low = lambda l: {x.lower() for x in l or []}
+    if qk in ("kv_list", "kv_keys") and op["kind"] == "kv_deltree" and idx_lost \
             and q.get("a", "").startswith(op.get("key", "")) and q.get("a", "") != op.get("key", ""):
-        cls = "kvlist-deltree-shorter-prefix"
-    elif sit == "service-id-renamed" and qk in SVC_FAMILY:
-        cls = "service-id-renamed"
-    elif sit == "check-service-changed" and qk in SVC_FAMILY:
-        cls = "check-moved-to-another-service"
-    elif sit == "check-stale-service-name" and qk in SVC_FAMILY:
-        cls = "check-stale-service-name"
-    elif qk == "connect_nodes" and lost_index:
-        cls = "connect-nodes-index-of-destination"
-    elif qk == "csn_connect" and lost_index:
-        cls = "csn-connect-index-over-result-names"
-    return {"class": cls, "query": qk, "lost": v["kind"], "situation": sit}
+        cls, rel = "kvlist-deltree-shorter-prefix", "longer-prefix"
+    elif si.get("ren_old") and name == si["ren_old"].lower() and qk in NAME_INDEX and (idx_lost or wake_ok):
+        cls, rel = "service-id-renamed", "old-name"
+    elif name in moved and (qk in HEALTH or qk == "csn_connect") and (idx_lost or wake_ok or (lost == "missed-wake" and qk == "csn_connect")):
+        cls, rel = "check-moved-to-another-service", "moved-from"
+    elif ((name in stale_cur and qk in HEALTH) or (name in stale_dest and qk == "csn_connect")) \
+            and (idx_lost or wake_ok or (lost == "missed-wake" and qk == "csn_connect")):
+        cls, rel = "check-stale-service-name", "current-name"
+    elif qk == "connect_nodes" and idx_lost or (qk == "connect_nodes" and stream == "ep" and lost == "missed-wake"):
+        if name in low(si.get("conn_rem")) | low(si.get("conn_add")) | low(si.get("conn_touch")):
+            cls, rel = "connect-nodes-index-of-destination", "destination-touched"
+    elif qk == "csn_connect" and (idx_lost or (stream == "ep" and lost == "missed-wake")):
+        if name in low(si.get("conn_rem")):
+            cls, rel = "csn-connect-index-over-result-names", "destination-loses-instance"
+    return {"class": cls, "family": fam, "lost_family": "index" if idx_lost else ("wake" if lost == "missed-wake" else lost),
+            "related": rel, "query": qk, "name": name, "lost": lost, "situation": si.get("kind", v.get("sit", ""))}
 
 
 def still_fails(ctx, binp, stream, ops, q, kind):
@@ -203,7 +223,7 @@ def still_fails(ctx, binp, stream, ops, q, kind):
         return False
     lines = open(out).read().splitlines()
     hdr, h = json.loads(lines[0]), json.loads(lines[1])
-    qs = hdr["ext_queries"] if stream == "ext" else hdr["queries"]
+    qs = {"ext": hdr["ext_queries"], "ep": hdr["ep_queries"]}.get(stream, hdr["queries"])
     return any(v["step"] == len(ops) - 1 and v["kind"] == kind and qs[v["q"]] == q for v in h["viol"] or [])
 
 
@@ -250,7 +270,7 @@ def run(ctx):
     for n, line in enumerate(open(out)):
         o = json.loads(line)
         if n == 0:
-            qs_model, qs_ext = o["queries"], o["ext_queries"]
+            qs_model, qs_ext, qs_ep = o["queries"], o["ext_queries"], o["ep_queries"]
         elif "loop" in o:
             loops.append(o["loop"])
         else:
@@ -290,7 +310,7 @@ def run(ctx):
     known_hits, unknown = collections.Counter(), []
     seen = set()
     for h in hs:
-        qs = qs_ext if h["stream"] == "ext" else qs_model
+        qs = {"ext": qs_ext, "ep": qs_ep}.get(h["stream"], qs_model)
         for k in ("evals", "changed", "fired_tot", "spurious", "raw_zero", "idx_only"):
             tot[k] += h[k]
         lens[len(h["ops"]) // 5 * 5] += 1
@@ -300,7 +320,7 @@ def run(ctx):
             if e:
                 errkinds[op["kind"] + ": " + e.split('"')[0].split("'")[0].strip()[:40]] += 1
         for v in h["viol"] or []:
-            sig = signature(qs[v["q"]], v, h["ops"][v["step"]])
+            sig = signature(qs[v["q"]], v, h["ops"][v["step"]], (h.get("sits") or [{}] * (v["step"] + 1))[v["step"]], h["stream"])
             f = vlib.match_known(PROP, sig)
             if f:
                 known_hits[sig["class"]] += 1
@@ -317,7 +337,7 @@ def run(ctx):
         if key in reported or len(reported) >= 5:
             continue
         reported.add(key)
-        qs = qs_ext if h["stream"] == "ext" else qs_model
+        qs = {"ext": qs_ext, "ep": qs_ep}.get(h["stream"], qs_model)
         ops = h["ops"][:v["step"] + 1]
         if ops:
             ops = shrink(ctx, binp, h["stream"], ops, qs[v["q"]], v["kind"])
